@@ -117,6 +117,21 @@ def run(report, p):
                     r1.check(ok_close, f, rn.ast, "os.replace publishes the file before it is closed (its content can still sit in the write buffer: a kill right after the rename leaves an empty or partial file under the final name)", construct="replace before close")
     if n < 2:
         raise AnalysisError(f"only {n} write-open site(s) reachable from create/flatten; two writers were confirmed")
+    # a durable file never leaves its final name: it is only ever the DESTINATION of a rename, never the source, and it is never removed
+    for fq in sorted(reach):
+        f = p.funcs[fq]
+        moves = [(c, t) for c, tg in p.calls[fq] for t in tg if t in ("ext:os.replace", "ext:os.rename", "ext:os.renames", "ext:shutil.move", "ext:os.remove", "ext:os.unlink")]
+        written = {norm(c.args[0]) for c, tg in p.calls[fq] if "builtin:open" in tg and c.args and (open_mode(p, c, f) is None or any(ch in open_mode(p, c, f) for ch in "wax+"))}
+        # the durable names: what a temporary that was written here is renamed to
+        finals = {norm(c.args[1]) for c, t in moves if t.split(".")[-1] in ("replace", "rename", "renames", "move") and len(c.args) == 2 and norm(c.args[0]) in written}
+        for c, t in moves:
+            leaf = t.split(".")[-1]
+            if not c.args:
+                continue
+            victim = norm(c.args[0])
+            if victim in finals:
+                r1.instance(f, c, norm(c)[:70])
+                r1.check(False, f, c, f"`{norm(c)[:70]}` takes the durable file `{victim}` away from its final name ({'renamed away' if leaf not in ('remove', 'unlink') else 'removed'}) before the new content is in place: a kill right after it leaves the history without that file (no chain file: every later command aborts) - os.replace onto the existing file is the atomic step", construct=f"durable file {victim} moved away / removed")
 
     # ------------------------------------------------------------------ R15.2
     r2 = report.rule("R15.2", "in each history the new generation is validated before the first write (an abort leaves nothing half-written)", 1)
